@@ -52,8 +52,11 @@ structure PipeOutcome where
   consumed : List Line := []
 
 /-- Run the pipeline trace check on the pipeline's share of a log. -/
-def pipeTrace (cfg : PipelineTrace.Cfg) (evs : List TraceOrder.Ev) : PipeOutcome :=
+def pipeTrace (cfg : PipelineTrace.Cfg) (evs : List TraceOrder.Ev) (others : List String := []) : PipeOutcome :=
   let kinds := PipelineTrace.pipeKinds cfg.agg
+  match evs.find? fun e => !(kinds.contains e.kind || others.contains e.kind) with
+  | some e => { answer := s!"rejected unknown event {showEv e}" }
+  | none =>
   let evs := evs.filter fun e => kinds.contains e.kind
   match PipelineTrace.batchesOf cfg evs with
   | none => { answer := "rejected batches: the logged flushes are not the batches of the batching-loop model" }
@@ -95,6 +98,19 @@ def handle : List String → String
         | some cfg, some evs => (pipeTrace cfg evs).answer
         | _, _ => "bad-args cfg/trace"
     | _ => "bad-args blob"
+  | op :: blob :: _ =>
+    -- `pmut<k> <blob>`: a real log damaged by the harness in a way that no run can produce; must be rejected
+    if op.startsWith "pmut" then
+      match blob.splitOn "/" with
+      | [cfg, ins, _, trace] =>
+        match parseInputs ins with
+        | none => "bad-args inputs"
+        | some inputs =>
+          match parseCfg cfg inputs false, parseTrace trace with
+          | some cfg, some evs => if (pipeTrace cfg evs).answer.startsWith "ok " then "ok accepted" else "rejected"
+          | _, _ => "bad-args cfg/trace"
+      | _ => "bad-args blob"
+    else "bad-op"
   | _ => "bad-op"
 
 end Rare.Drv.C01
